@@ -182,13 +182,13 @@ func init() {
 	register(&Check{
 		ID:    "C10",
 		Level: "model_checking",
-		Rule: "base feed x 16 default-bearing optional columns x 6 spellings (as written / column omitted / blank everywhere / blank first row / blank last row / explicit default), one-sided arrival or departure per stop_times row, either time column omitted, inheritance option; k deviations at a time (quick 2, thorough 3); plus the full inheritance product (option x parent type x parent value x two children's values x child-has-parent x column absent x row order = 4 096); " +
+		Rule: "base feed x 16 default-bearing optional columns x 6 spellings (as written / column omitted / blank everywhere / blank first row / blank last row / explicit default), one-sided arrival or departure per stop_times row, either time column omitted, inheritance option; k deviations at a time (quick 2, thorough 4); plus the full inheritance product (option x parent type x parent value x two children's values x child-has-parent x column absent x row order = 4 096); " +
 			"non-trivial = distinct feeds with at least one non-explicit spelling; oracle = reference interpretation with the GTFS reference defaults",
 		Assumptions: []string{"defaults are those of the GTFS schedule reference: route_color FFFFFF, route_text_color 000000, pickup/drop_off 0, continuous_* 1, timepoint 1, transfer_type 0, exact_times 0, wheelchair/bikes 0, location_type 0"},
 		Scenarios: func(tier string) []*Scenario {
 			k := 2
 			if tier == "thorough" {
-				k = 3
+				k = 4
 			}
 			return []*Scenario{{Name: "defaults", Bound: k, Run: c10Defaults}, {Name: "inheritance", Bound: -1, Run: c10Inheritance}}
 		},
